@@ -46,11 +46,15 @@ type World struct {
 	inlMemo    map[*ssa.Function]bool
 	inlIfs     map[*ssa.Function]int
 	addrTaken  map[*ssa.Function]bool
+	pfacts     map[*ssa.Function]map[string]*T
 	callers    map[*ssa.Function][]*ssa.Function
 	recursive  map[*ssa.Function]bool
 	byKey      map[string]*ssa.Function
 	globalInit map[string]*T
 	globalRO   map[string]bool
+	initMaps   map[string][]mapEntry // maps the package initialiser built: their entries
+	mapGlobal  map[string][]string   // ... and the package variables that hold them
+	mapRO      map[string]bool
 }
 
 func LoadWorld(root string) (*World, error) {
@@ -353,6 +357,9 @@ func (w *World) computeMods() {
 							continue
 						}
 						break
+					}
+					if _, fresh := addr.(*ssa.MakeSlice); fresh {
+						continue // a slice this function made itself
 					}
 					if _, fresh := addr.(*ssa.Alloc); fresh {
 						continue // storage this function created itself (locals, literals, varargs): no existing state changes
